@@ -68,6 +68,26 @@ def install(I):
     M[('orderedmap', 'Reverse')] = om_reverse
 
     M[('entry', 'GetHash')] = lambda I, a, ins: ipfslog.cid_value(I, a[0].t)
+    M[('entry', 'GetNext')] = lambda I, a, ins: SliceVal(AV([]), 0, 0, 0)
+
+    # ---------------- libp2p event emitters: emissions are recorded in order
+    def v_emitter(I, args, ins):
+        return Iface(-53, Native('emitter', name=gostr(I, args[0]) if not isinstance(args[0], str) else args[0], items=[], as_iface=True))
+
+    def em_emit(I, args, ins):
+        sp = getattr(I, 'sync_point', None)
+        if sp is not None:
+            sp('Emit', ins)
+        args[0].items.append(args[1])
+        return None
+
+    N['verif_emitter'] = v_emitter
+    N['verif_emittedCount'] = lambda I, a, ins: len(a[0].v.items)
+    N['verif_emittedAt'] = lambda I, a, ins: a[0].v.items[a[1] if isinstance(a[1], int) else I.concretize(a[1], 'emitted-index')]
+    M[('emitter', 'Emit')] = em_emit
+    M[('emitter', 'Close')] = lambda I, a, ins: None
+    for _m in ('ItemQueued', 'ItemPop'):
+        C['(*berty.tech/weshnet/v2.messageMetricsTracer).' + _m] = lambda I, a, ins: None
     M[('entry', 'GetPayload')] = lambda I, a, ins: I.bytes_value(I.bytes_term(a[0].op.value)) if hasattr(I, 'bytes_value') else a[0].op.value
 
     def new_operation(I, args, ins):
@@ -160,6 +180,21 @@ def install(I):
         l.entries = list(src.entries)
         return log_iface(I, l)
 
+    def v_log_view(I, args, ins):
+        """a replica's partial view: a log holding a FREE subset of the entries (solver-chosen), in the same log order.
+        Views need not be causally closed: entries of different devices are concurrent branches, and the index only
+        ever sees Values()."""
+        src = args[0].v
+        n = len(src.entries)
+        mask = I.fresh_int('view-mask')
+        I.register_input('view-mask', mask)
+        i = I.decide([mask == j for j in range(2 ** n)], 'log-view')
+        l = new_log(I)
+        l.entries = [e for b, e in enumerate(src.entries) if (i >> b) & 1]
+        I.path.events.append('partial view %s of %d entries' % (bin(i), n))
+        return log_iface(I, l)
+
+    N['verif_logView'] = v_log_view
     N['verif_bindStore'] = v_bind_store
     N['verif_storeLog'] = v_store_log
     N['verif_appended'] = v_appended
